@@ -1,14 +1,29 @@
 // replay_c16.cc -- native replay for C16 counterexamples: replay_c16 dgmlt1|dgmlt2 NG NI k a b
+//                                                       replay_c16 tsimpr N mode c0 c1 c2 c3 a w d
 #include <bxdecay0/dgmlt1.h>
 #include <bxdecay0/dgmlt2.h>
+#include <bxdecay0/tsimpr.h>
 #include <cmath>
 #include <cstdio>
 #include <cstdlib>
 #include <cstring>
 static int g_k;
 static void mono(int m, const double * u, double * f, double *, void *) { for (int i = 0; i < m; i++) f[i] = std::pow(u[i], g_k); }
+static double g_c[4];
+static double cubic(double x, void *) { return g_c[0] + g_c[1] * x + g_c[2] * x * x + g_c[3] * x * x * x; }
 int main(int argc, char ** argv)
 {
+  if (argc >= 11 && !strcmp(argv[1], "tsimpr")) {
+    int N = atoi(argv[2]), mode = atoi(argv[3]);
+    for (int i = 0; i < 4; i++) g_c[i] = atof(argv[4 + i]);
+    double a = atof(argv[8]), w = atof(argv[9]), d = atof(argv[10]), b = a + w;
+    double h = mode == 1 ? w / (N + d) : w / N;
+    double r = bxdecay0::decay0_tsimpr(cubic, a, b, h, nullptr);
+    auto P = [&](double x) { return g_c[0] * x + g_c[1] * x * x / 2. + g_c[2] * x * x * x / 3. + g_c[3] * x * x * x * x / 4.; };
+    double exact = P(b) - P(a), err = std::fabs(r - exact);
+    printf("{\"result\":%.17g,\"exact\":%.17g,\"error\":%.3g,\"confirmed\":%s}\n", r, exact, err, err > 1e-9 ? "true" : "false");
+    return err > 1e-9 ? 1 : 0;
+  }
   if (argc < 7) return 2;
   int NG = atoi(argv[2]), NI = atoi(argv[3]);
   g_k = atoi(argv[4]);
